@@ -747,14 +747,16 @@ func legCScale(c *core.Ctx, sub int, machines []*mach.M) {
 			}
 			check("one-chunk", [][]byte{in})
 			check("bytewise", mach.Bytewise(in))
-			for _, k := range []int{3, 16, 64} {
-				check(fmt.Sprintf("reads-of-%d", k), fixedChunks(in, k))
+			for _, k := range []int{3, 16, 64, 4096} {
+				if k < len(in) {
+					check(fmt.Sprintf("reads-of-%d", k), fixedChunks(in, k))
+				}
 			}
 			for _, i := range scaleSplits(len(in)) {
 				checkEnv("2-split", [][]byte{in[:i], in[i:]}, mach.Config{}, whole)
 			}
 			for _, k := range []int{0, 1, len(in) / 2, len(in) - 1, len(in)} {
-				if k < 0 || k > len(in) {
+				if k < 0 || k > len(in) || k > 4096 {
 					continue
 				}
 				padded := append([]byte(strings.Repeat(" ", 4096-k)), in...)
